@@ -108,7 +108,15 @@ def check(ck: Checker) -> None:
 
     # ---------------------------------------------------------------- arity
     n = check_arity(ck, slice_, "C06.arity", 1)
-    ck.floor("C06.arity", n, 1, "Tree iteration sites in gc")
+    # the listing of a used directory comes from the strict loader (a directory that cannot be read must stop gc:
+    # treating it as "lists nothing" would delete every file it protects)
+    loads = [c for f in slice_ for c in walk_own(f.node) if isinstance(c, ast.Call) and norm(c.func) in ("Tree.load",)]
+    tolerant = [c for f in slice_ for c in walk_own(f.node) if isinstance(c, ast.Call) and (call_name(c) or "").lstrip("_") in ("try_load",)]
+    for c in tolerant:
+        ck.fail("C06.used", gc, c, f"`{norm(c)[:60]}` loads a used directory with the tolerant loader (None on a missing / corrupt object): the directory then protects none of its files and gc deletes them all instead of stopping", construct=f"{norm(c)[:50]} / strict load")
+    if not tolerant:
+        ck.floor("C06.arity", n, 1, "Tree iteration sites in gc")
+    ck.floor("C06.used", len(loads) + len(tolerant), 1, "tree loads in gc")
 
     # ------------------------------------------------------- removal sinks
     # direct destructive calls + calls into repository methods that destroy
